@@ -282,6 +282,15 @@ class Connection(ExportImport):
             raise ConnectionStateError("Cannot close a connection joined to "
                                        "a transaction")
 
+        if primary:
+            # The connections to the other databases are closed with
+            # this one: refuse before anything is done if one of them
+            # is joined to a transaction.
+            for connection in self.connections.values():
+                if not connection._needs_to_join:
+                    raise ConnectionStateError(
+                        "Cannot close a connection joined to a transaction")
+
         self._cache.incrgc()  # This is a good time to do some GC
 
         # Call the close callbacks.
